@@ -177,6 +177,8 @@ def shapes(tier, dlls):
             for npk in pk:
                 for win in (wins if kind == 'p2p' else [1]):
                     yield dll, kind, npk, win
+                if tier == 'quick' and kind == 'p2p' and npk == 5:
+                    yield dll, kind, npk, 2          # one shape with several windows of more than one packet in the quick tier too
 
 
 def explore(out, tier, dlls, limit=None):
@@ -204,7 +206,7 @@ def run(out, tier, rng, work):
     import corr21
     out.level = 'proof'
     out.rule = ('fault enumeration on the real code: for every transfer shape (BAM and RTS/CTS, J1939-21 and J1939-22, 2..12 packets '
-                '(quick: 2,3,5), windows 1,2,3,all (quick: 1,all)) the clean run, loss of the k-th bus frame for EVERY k, and silence of '
+                '(quick: 2,3,5), windows 1,2,3,all (quick: 1,all, and 2 for 5 packets)) the clean run, loss of the k-th bus frame for EVERY k, and silence of '
                 'either peer from its k-th frame for EVERY k, each followed by a fresh transfer on the same pair; oracle: deliveries are the '
                 'exact payload or nothing, both session tables empty within 1.25 s (FD: 3 s) of the last frame (probes every 25 ms), timeout '
                 'abort present where asked, follow-up delivered intact; J1939-21 handler logs replayed on the Coq model; '
